@@ -11,6 +11,7 @@ package drivers
 import (
 	"encoding/json"
 	"fmt"
+	"github.com/consensys/gnark/frontend"
 	"math/big"
 	"sort"
 	"strings"
@@ -137,4 +138,70 @@ func foreign(raw json.RawMessage, resp *drv.Response) error {
 		resp.Sample(map[string]any{"foreign_sites": 0, "hint_names": names})
 	}
 	return nil
+}
+
+// foreignProbe is the gadget-level form of the guard: fn is run once honestly to list the hint calls that are not one of the chip's
+// four, then once per (call, alternative) with the alternative substituted.  An accepted alternative (the whole run for the families
+// decided globally, the local verdict for the recognised shapes) is reported under prop.
+func foreignProbe(resp *drv.Response, prop, label string, mode engine.Mode, inputs []*big.Int, fn func(api frontend.API, iv []frontend.Variable) error) {
+	type fc struct {
+		global int
+		name   string
+	}
+	var calls []fc
+	h := &engine.Config{Mode: mode}
+	h.Strategy = func(c *engine.HintCall) []*big.Int {
+		if !engine.KnownHint(c.Name) && c.Name != "DecomposeHint" && !strings.EqualFold(c.Name, "nbits") {
+			calls = append(calls, fc{c.Global, c.Name})
+		}
+		return nil
+	}
+	if err := hc.Run(h, inputs, fn); err != nil {
+		return // not an honest-accepting case: nothing to probe
+	}
+	resp.Count(fmt.Sprintf("foreign-probe/%s/%s/%d", prop, label, len(calls)), len(calls) == 0)
+	for _, call := range calls {
+		for ai := 0; ; ai++ {
+			var chosen *engine.Alternative
+			nalts := 0
+			c2 := &engine.Config{Mode: mode, Permissive: true, TargetGlobal: call.global}
+			c2.Strategy = func(c *engine.HintCall) []*big.Int {
+				alts := engine.ForeignAlternatives(c)
+				nalts = len(alts)
+				if ai >= len(alts) {
+					return nil
+				}
+				a := alts[ai]
+				same := true
+				for i := range a.Out {
+					if new(big.Int).Mod(a.Out[i], engine.R).Cmp(c.Honest[i]) != 0 {
+						same = false
+					}
+				}
+				if same {
+					return nil
+				}
+				chosen = &a
+				c2.AbortAfterLocal = !a.Global
+				return a.Out
+			}
+			err := hc.Run(c2, inputs, fn)
+			if chosen == nil {
+				if ai >= nalts {
+					break
+				}
+				continue
+			}
+			accepted := c2.LocalAccepted
+			if chosen.Global {
+				accepted = err == nil
+			}
+			resp.Count(fmt.Sprintf("foreign-probe/%s/%s/%d/%d", prop, label, call.global, ai), false)
+			if accepted {
+				resp.Violate(fmt.Sprintf("%s/foreign-hint/accepted hint=%s family=%s gadget=%s", strings.ToLower(prop), call.name, strings.Split(chosen.Family, " ")[0], label),
+					fmt.Sprintf("%s: the alternative '%s' for the prover-supplied value %s - not the honest output - satisfies the constraints", label, chosen.Family, call.name),
+					map[string]any{"gadget": label, "family": chosen.Family})
+			}
+		}
+	}
 }
